@@ -31,9 +31,7 @@ Lemma scope_ok_holds : forall U o i o' i' rs,
 Proof.
   intros U o i o' i' rs Ho Hi. unfold scope_ok. apply forallb_forall. intros q Hq.
   apply universe_In in Hq. rewrite !vec_at_out, !vec_at_in by exact Hq.
-  rewrite Ho, Hi.
-  pose proof (count_if_nonneg (fun r => negb (obtained r)) rs).
-  repeat (apply andb_true_iff; split); apply Z.leb_le; lia.
+  rewrite Ho, Hi. rewrite !Z.eqb_refl. reflexivity.
 Qed.
 
 Section GenericTrace.
@@ -41,11 +39,13 @@ Section GenericTrace.
   Variable ms_lazy : (Z -> bool) -> Z -> bool.
   Hypothesis ms_select_some : forall sup l p, ms_select sup l = Some p ->
     exists l1 l2, l = l1 ++ p :: l2 /\ sup p = true /\ (forall q, In q l1 -> sup q = false).
+  Hypothesis ms_select_none : forall sup l, ms_select sup l = None ->
+    forall q, In q l -> sup q = false.
   Hypothesis ms_lazy_spec : forall sup p, ms_lazy sup p = sup p.
 
   Lemma step_mon : forall U hs c s m o,
     wf_cfg hs c -> coupled U hs s m -> wf_op U o ->
-    exists m', mon_step U hs (limL c) m o (snd (step ms_select ms_lazy U c s o)) = Some m' /\
+    exists m', mon_step U hs c m o (snd (step ms_select ms_lazy U c s o)) = Some m' /\
                coupled U hs (fst (step ms_select ms_lazy U c s o)) m'.
   Proof.
     intros U hs c s m o Hwf Hc Hop. destruct Hc as [Hl Hnd Hn Hk Hs Hh Hns].
@@ -64,15 +64,17 @@ Section GenericTrace.
                   (mkB (outD s) (inL s) [] (held s) (nslot s)) opens) as [b rs] eqn:E.
       cbn [fst snd mon_step].
       pose proof (run_batch_outcomes ms_select ms_lazy ms_select_some ms_lazy_spec _ _ _ _ _ _ _ E) as Ho.
-      assert (Hb : batch_ok U hs (limL c) m (map q_reqs opens) rs (flat_map o_un rs)
+      assert (Hb : batch_ok U hs c m opens rs (flat_map o_un rs)
                             (scope_vec U (b_out b) (b_in b)) = true).
-      { unfold batch_ok. fold (reqs_of opens).
+      { unfold batch_ok. cbv zeta. fold (reqs_of opens).
         pose proof (outcomes_length _ _ _ _ _ _ _ Ho) as Hlen.
         pose proof (outcomes_un _ _ _ _ _ _ _ Ho) as [Hu1 Hu2].
         pose proof (outcomes_counts _ _ _ _ _ _ _ Ho) as Hcnt. cbn [b_out b_in] in Hcnt.
         rewrite Hl.
         repeat (apply andb_true_iff; split).
         - apply Z.eqb_eq. rewrite Hlen. reflexivity.
+        - eapply (run_batch_live ms_select ms_lazy ms_select_some ms_select_none ms_lazy_spec); eauto;
+            intros p; lia.
         - eapply outcomes_open_ok; eauto. intros p. lia.
         - exact Hu1.
         - apply Z.leb_le. exact Hu2.
@@ -109,7 +111,7 @@ Section GenericTrace.
 
   Theorem mon_accepts_trace : forall U hs c ops s m i,
     wf_cfg hs c -> coupled U hs s m -> Forall (wf_op U) ops ->
-    mon_run U hs (limL c) m i (trace ms_select ms_lazy U c s ops) = [].
+    mon_run U hs c m i (trace ms_select ms_lazy U c s ops) = [].
   Proof.
     intros U hs c ops. induction ops as [|o ops IH]; intros s m i Hwf Hc Hops; [reflexivity|].
     inversion Hops as [|x l Ho Hrest]; subst.
